@@ -33,11 +33,11 @@ class Either:
         self.accepted = accepted
 
 # compact alphabet for the bounded-exhaustive part
-ALPHABET = ['app1', 'app2x', 'applist', 'appscalar', 'app0', 'iter2', 'iter0', 'iter0first',
+ALPHABET = ['app1', 'app2x', 'applist', 'appscalar', 'app0', 'iter2', 'iter0', 'iter0first', 'appzeros',
             'itergen', 'set', 'ctx:app1+app1', 'trunc0', 'trunc1', 'truncm1', 'truncbelow', 'trunclen',
             'truncstr', 'badshape', 'badrank', 'modecycle', 'reopen']
 # additional ops for long random histories
-EXTRA = ['ctx:iterfail_shape+app1', 'ctx:app1+iterfail_raise+app3', 'ctx:app3+truncm1+app1', 'ctx:app3+trunc1', 'badshape0', 'badrank0', 'md_bad', 'ctx:app1+iterfail_shape', 'ctx:app3+iterfail_raise', 'ctx:app1+app1+app1', 'ctx:set+iter2', 'ctx:applist+app2x', 'ctx:app0+app1', 'ctx:set+app3', 'app_zerod', 'iterfail_shape', 'iterfail_raise', 'iterfail_first', 'setscalar', 'trunclen1', 'truncfloat', 'truncmid', 'truncneg2', 'app3',
+EXTRA = ['appF', 'appF', 'ctx:iterfail_shape+app1', 'ctx:app1+iterfail_raise+app3', 'ctx:app3+truncm1+app1', 'ctx:app3+trunc1', 'badshape0', 'badrank0', 'md_bad', 'ctx:app1+iterfail_shape', 'ctx:app3+iterfail_raise', 'ctx:app1+app1+app1', 'ctx:set+iter2', 'ctx:applist+app2x', 'ctx:app0+app1', 'ctx:set+app3', 'app_zerod', 'iterfail_shape', 'iterfail_raise', 'iterfail_first', 'setscalar', 'trunclen1', 'truncfloat', 'truncmid', 'truncneg2', 'app3',
          'recreate', 'recreate_fill', 'md_set', 'md_pop', 'md_clear', 'itergen3', 'copy', 'copycast']
 STARTS = [(0,), (3,), (0, 2), (2, 2), (2, 1, 3)]
 
@@ -149,6 +149,15 @@ def build(op, ref, rng, meta):
         x, y = rows(1), gens.safe_source(rng, 'int64', dtype, (2,) + trail).tolist()
         exp = concat(concat(ref, x), np.asarray(y, dtype=dtype))
         return exp, lambda D, a, p: (a.iterappend([x, y]), a)[1]
+    if op == 'appzeros':        # a chunk that compares equal to zero everywhere but is not all zero BITS (negative zeros)
+        x = np.zeros((2,) + trail, dtype=dtype)
+        if dtype.kind in 'fc':
+            x[...] = -0.0 if dtype.kind == 'f' else complex(-0.0, 0.0)
+            x.reshape(-1)[-1:] = 0.0 if dtype.kind == 'f' else complex(0.0, -0.0)
+        return concat(ref, x), lambda D, a, p: (a.append(x), a)[1]
+    if op == 'appF':            # a Fortran-ordered (not C-contiguous) chunk, also as the first chunk of an empty array
+        x = np.asfortranarray(gens.random_values(rng, dtype, (3,) + trail))
+        return concat(ref, x), lambda D, a, p: (a.append(x), a)[1]
     if op == 'iter0first':      # the first chunk has no rows, the data comes after it
         e, y = np.zeros((0,) + trail, dtype=dtype), rows(2)
         return concat(ref, y), lambda D, a, p: (a.iterappend(c for c in (e, y)), a)[1]
@@ -296,7 +305,13 @@ def run(env, res, case, monitors):
         res.dim('source_layout', layout)
         try:
             # the history starts from an input of some memory layout (equal in value): the on-disk order is C whatever it was
-            a = D.asarray(apipath, gens.relayout(ref.copy(), layout), accessmode='r+', chunklen=st.get('chunklen', 2))
+            if zlib.crc32(('mode' + str(case['vseed'])).encode()) % 4 == 0:
+                # the handle comes in the default mode r and is made writable by assignment afterwards
+                a = D.asarray(apipath, gens.relayout(ref.copy(), layout), chunklen=st.get('chunklen', 2))
+                a.accessmode = 'r+'
+                res.count('starts.mode_r_then_assigned_rplus')
+            else:
+                a = D.asarray(apipath, gens.relayout(ref.copy(), layout), accessmode='r+', chunklen=st.get('chunklen', 2))
         except Exception as e:
             res.fail(f'start:creation-raised:{type(e).__name__}',
                      f'asarray({"<symlink>/../arr" if apipath != path else "arr"}, {describe(ref)}) raised '
